@@ -12,11 +12,21 @@ if [ "$1" = "clean" ]; then
   find . -name '*.vo' -o -name '*.vos' -o -name '*.vok' -o -name '*.glob' -o -name '.*.aux' | xargs rm -f
 fi
 coq_makefile -f _CoqProject -o Makefile >/dev/null
-timeout 1800 make -j16 > "$VERIF/build/make.log" 2>&1 || { tail -40 "$VERIF/build/make.log"; exit 1; }
+# -k: a file that does not check must not keep the files that do not depend on it from being built
+MAKE_OK=1
+timeout 1800 make -k -j16 > "$VERIF/build/make.log" 2>&1 || MAKE_OK=0
+DISPATCH_OK=1
+if [ $MAKE_OK = 0 ]; then make -q Valid/Dispatch.vo >/dev/null 2>&1 || DISPATCH_OK=0; fi
 cd "$VERIF/build/extract"
+if [ $DISPATCH_OK = 0 ]; then
+  # the checker's own sources did not build: never run a stale binary
+  rm -f vchk
+  tail -40 "$VERIF/build/make.log"; exit 1
+fi
 if [ ! -x vchk ] || [ "$VERIF/coq/Valid/Dispatch.vo" -nt vchk ] || [ "$VERIF/ocaml/driver.ml" -nt vchk ]; then
   timeout 600 coqc -Q "$VERIF/coq" V -o "$VERIF/build/extract/Extract.vo" "$VERIF/coq/Extract/Extract.v" > extract.log 2>&1 || { cat extract.log; exit 1; }
   cp "$VERIF/ocaml/driver.ml" .
   timeout 600 ocamlfind ocamlopt -O2 -w -a vchk.mli vchk.ml driver.ml -o vchk > ocaml.log 2>&1 || { cat ocaml.log; exit 1; }
 fi
+if [ $MAKE_OK = 0 ]; then tail -40 "$VERIF/build/make.log"; exit 1; fi
 echo "build ok"
